@@ -182,9 +182,15 @@ CHECKS["C08"] = dict(
          "as in the End of Data); from ERROR_TRANSPORT, ERROR_FATAL, ERROR_NO_DATA_AVAIL, ERROR_NO_INCR_UPDATE_AVAIL, FAST_RECONNECT, CONNECTING or RESET, once open and "
          "send succeed and the cache answers the query the socket sends (which query is a function of its state, C05), at most 4 iterations lead to ESTABLISHED with "
          "exactly the cache's data and at most one retry_interval of protocol time passes (converges_with_reset_query, converges_with_serial_query, ...). "
-         "PARTIAL in one respect: a cache that needs several exchanges (Cache Reset, no-data, session change, version negotiation) is covered exchange by exchange "
-         "(each ends in a start state of the convergence theorem), not by one composed theorem; that composition and the refresh+expire part of the time bound are "
-         "decided on the implementation by correspondence: fault schedules (every transport call site x fault kind, generated reactively from the model's own queries, "
+         "MULTI-EXCHANGE (RtrProps/C08c.lean): the wait in ESTABLISHED ends at a Serial Notify or exactly at last_update+refresh and the increment is applied in 2 iterations "
+         "(established_polls_and_updates); Cache Reset -> Reset Query -> reload in exactly 4 iterations and no time (converges_after_cache_reset); 'No Data Available' -> one "
+         "retry interval -> reload (converges_after_no_data); a Cache Response of a foreign session is refused, nothing is purged, and three exchanges / 7 iterations / one "
+         "retry interval later the socket holds the new session's data (converges_after_session_change); a reactive cache given as a function from the socket's query to "
+         "its reply brings any of the seven recovery states to ESTABLISHED with exactly its data in at most 2 exchanges, 6 iterations and one retry interval "
+         "(converges_eventually), and an ESTABLISHED socket in 2 resp. 5 iterations after the wait (established_converges_eventually). "
+         "STILL PARTIAL: unboundedly repeated 'no data' rounds (each costs one retry interval, the induction is not stated), version negotiation composed with a good "
+         "exchange, notifications or clock advances inside an answer, and the refresh+expire part of the time bound (the fault phase: C07 + progress) are decided on the "
+         "implementation by correspondence: fault schedules (every transport call site x fault kind, generated reactively from the model's own queries, "
          "per-connection byte streams) followed by a correct simulated cache; the oracle checks on the real thread that the run ends ESTABLISHED with exactly the "
          "cache's records within the time bound. " + RTR_TIE,
     note=RTR_NOTE, technique="Lean 4 ranking-function proof (progress) and completeness/convergence proof (good cache => ESTABLISHED with the cache's data in <= 4 iterations) over the state-machine model + differential correspondence with reactive simulated cache and fake clock",
